@@ -496,6 +496,47 @@ Section Symbolic.
     destruct (s_steps_inv n (le_n n)) as (_ & _ & IU & IL).
     split; [intros i k Hik Hk; apply IU; lia | intros i k Hik Hk; apply IL; lia].
   Qed.
+
+  (* the patterns are triangular and L's diagonal is stored *)
+  Definition TInv (m : nat) (Lp Up : pat) : Prop :=
+    (forall r c, c < r -> Up r c = false) /\ (forall r c, r < c -> Lp r c = false) /\
+    (forall i, i < m -> Lp i i = true).
+
+  Lemma s_step_tri i Lp Up : i < n -> TInv i Lp Up ->
+    TInv (S i) (fst (s_step (Lp, Up) i)) (snd (s_step (Lp, Up) i)).
+  Proof.
+    intros Hi (TU & TL & TD). unfold s_step. cbv zeta. cbn [fst snd].
+    set (Up' := fold_left (su_step i Lp) (range i n) Up).
+    set (Lp' := fold_left (sl_step i Up') (range i n) Lp).
+    assert (Hnd : NoDup (range i n)) by (unfold range; apply seq_NoDup).
+    destruct (su_row_spec i Lp (range i n) Hnd Up) as [SU1 SU2]. fold Up' in SU1, SU2.
+    destruct (sl_col_spec i Up' (range i n) Hnd Lp) as [SL1 SL2]. fold Lp' in SL1, SL2.
+    split; [|split].
+    - intros r c Hcr. rewrite SU2; [apply TU; exact Hcr|].
+      destruct (Nat.eq_dec r i) as [-> | Hne]; [right; rewrite rangeS_In; lia | left; exact Hne].
+    - intros r c Hrc. rewrite SL2; [apply TL; exact Hrc|].
+      destruct (Nat.eq_dec c i) as [-> | Hne]; [right; rewrite rangeS_In; lia | left; exact Hne].
+    - intros i0 Hi0. destruct (Nat.eq_dec i0 i) as [-> | Hne].
+      + rewrite (SL1 i (proj2 (rangeS_In i n i) (conj (le_n i) Hi))). rewrite Nat.eqb_refl.
+        destruct (Lp i i), (Ap i i); reflexivity.
+      + rewrite SL2 by (left; exact Hne). apply TD. lia.
+  Qed.
+
+  Theorem doolittle_sym_triangular :
+    let Lp := fst (doolittle_sym n Ap) in
+    let Up := snd (doolittle_sym n Ap) in
+    (forall r c, c < r -> Up r c = false) /\ (forall r c, r < c -> Lp r c = false) /\ (forall i, i < n -> Lp i i = true).
+  Proof.
+    cbv zeta. rewrite doolittle_sym_steps.
+    assert (G : forall m, m <= n -> TInv m (fst (fold_left s_step (seq 0 m) (pempty, pempty)))
+                                         (snd (fold_left s_step (seq 0 m) (pempty, pempty)))).
+    { induction m as [|m IH]; intros Hm.
+      - cbn. repeat split; try reflexivity. intros; lia.
+      - rewrite seq_S, fold_left_app. cbn [fold_left plus]. specialize (IH ltac:(lia)).
+        destruct (fold_left s_step (seq 0 m) (pempty, pempty)) as [Lp Up]. cbn [fst snd] in IH.
+        apply s_step_tri; [lia | exact IH]. }
+    exact (G n (le_n n)).
+  Qed.
 End Symbolic.
 
 (* ------------------------------------------------------------------------------------------
@@ -550,4 +591,41 @@ Proof.
   cbv zeta. split; [vm_compute; reflexivity|]. split; [vm_compute; reflexivity|]. split.
   - intros i Hi. destruct i as [|[|[|i]]]; try lia; vm_compute; discriminate.
   - vm_compute. reflexivity.
+Qed.
+
+
+(* ------------------------------------------------------------------------------------------
+   Factor, then solve (LuDecompositionDoolittle + LinearSolver): A x = b. *)
+Theorem doolittle_factor_then_solve :
+  forall (N : Num)
+    (Nfield : field_theory (n0 N) (n1 N) (nadd N) (nmul N) (nsub N) (nopp N) (ndiv N) (ninv N) eq)
+    n (A : mat N) (Ap : pat) (L0 U0 : mat N) (b : vec N),
+    let Lp := fst (doolittle_sym n Ap) in
+    let Up := snd (doolittle_sym n Ap) in
+    let LU := doolittle_num N n A Ap Lp Up L0 U0 in
+    (forall i, i < n -> snd LU i i <> n0 N) ->
+    let x := lin_solve N n Lp Up (fst LU) (snd LU) b in
+    forall r, r < n -> nsum N n (fun c => nmul N (view N Ap A r c) (x c)) = b r.
+Proof.
+  intros N Nfield n A Ap L0 U0 b Lp Up LU Hpiv x r Hr.
+  destruct (doolittle_sym_closed n Ap) as [HUc HLc]. fold Lp Up in HUc, HLc.
+  destruct (doolittle_sym_triangular n Ap) as (TU & TL & TD). fold Lp Up in TU, TL, TD.
+  destruct (lu_steps_inv N Nfield n A Ap Lp Up HUc HLc L0 U0 n (le_n n)) as [_ [IL1 _]].
+  rewrite <- doolittle_num_steps in IL1. fold LU in IL1.
+  assert (Hupii : forall i, i < n -> Up i i = true).
+  { intros i Hi. rewrite (HUc i i (le_n i) Hi). rewrite Nat.eqb_refl. destruct (Ap i i); reflexivity. }
+  assert (H10 : n1 N <> n0 N) by (destruct Nfield as [_ H _ _]; exact H).
+  apply (lin_solve_Ax_b N Nfield n (view N Ap A) Lp Up (fst LU) (snd LU) b).
+  - intros r0 c0 Hp. destruct (Nat.le_gt_cases c0 r0) as [H|H]; [exact H|]. rewrite (TL r0 c0 H) in Hp. discriminate.
+  - intros r0 c0 Hp. destruct (Nat.le_gt_cases r0 c0) as [H|H]; [exact H|]. rewrite (TU r0 c0 H) in Hp. discriminate.
+  - intros i Hi. repeat split; [apply TD; exact Hi | apply Hupii; exact Hi | rewrite (IL1 i Hi); exact H10 | apply Hpiv; exact Hi].
+  - intros r0 c0 Hr0 Hc0.
+    rewrite <- (doolittle_decomposition_correct N Nfield n A Ap L0 U0 Hpiv r0 c0 Hr0 Hc0).
+    apply (sum_ext N). intros j Hj. fold Lp Up LU. f_equal.
+    + unfold view. destruct (Nat.ltb_spec j r0) as [H|H]; [reflexivity|].
+      destruct (Nat.eqb_spec j r0) as [-> | Hne].
+      * rewrite (TD r0 Hr0). apply IL1. exact Hr0.
+      * rewrite (TL r0 j) by lia. reflexivity.
+    + unfold view. destruct (Nat.leb_spec j c0) as [H|H]; [reflexivity|]. rewrite (TU j c0 H). reflexivity.
+  - exact Hr.
 Qed.
